@@ -11,10 +11,10 @@ import sys
 import traceback
 
 profile = json.loads(os.environ.get("MC_PROFILE", "{}"))
-flags = ["--xla_cpu_multi_thread_eigen=false",
-         "intra_op_parallelism_threads=1"]
+flags = ["--xla_cpu_multi_thread_eigen=false"]
 if profile.get("devices", 1) > 1:
-  flags.append("--xla_force_host_platform_device_count=%d" % profile["devices"])
+  flags.insert(0, "--xla_force_host_platform_device_count=%d" %
+               profile["devices"])
 os.environ["XLA_FLAGS"] = " ".join(flags)
 os.environ["JAX_PLATFORMS"] = "cpu"
 os.environ["JAX_ENABLE_X64"] = "1" if profile.get("x64") else "0"
